@@ -17,6 +17,8 @@ pickle frames in the thorough tier):
   piece of the pickled bytes reaching the (unbuffered) file, `close`, and every
   `os.remove/unlink/replace/rename` the code performs (`api.os` proxy).  Both calls must return correct models, the file
   must end up complete, and a third call must be a correct hit.
+* code generation: `save_model(codegen)` dies when it is about to build one of its four shared libraries, or at
+  the cache file; the next two `transfer_model(codegen)` calls must be correct (not raise from `ca.external`).
 * (outside the Lean model) torn files that are not prefixes: the caches of two option sets spliced
   (what two overlapping writers with different options leave), zero-filled holes: open finding
   C21-F2 (fixed in 9d600b8), replayed from the corpus and sampled in every run.
@@ -456,7 +458,9 @@ class CrashBench:
 class DynSched:
     """Runs the threads strictly one at a time; at every yield point (load_model, open, each piece of
     the written bytes, close, and every os.remove/unlink/replace/rename the code performs) the next thread
-    to run is drawn from a seeded PRNG.  The executed acts and the file after each are logged."""
+    to run is drawn from a seeded PRNG.  The executed acts and the file after each are logged.
+    A running thread that sleeps in the kernel without consuming CPU (e.g. a blocking `flock` on a file
+    another call holds) is set aside as `blocked` so that the call it waits for can go on."""
 
     def __init__(self, seed, snapshot, nthreads=2):
         self.rng = random.Random(seed)
@@ -464,25 +468,59 @@ class DynSched:
         self.cv = threading.Condition()
         self.pending, self.running, self.live = {}, None, set(range(nthreads))
         self.log, self.error = [], None
+        self.blocked, self.tids, self.watch = set(), {}, None
+
+    def register(self, i):
+        self.tids[i] = (threading.get_ident(), threading.get_native_id())
 
     def _grant(self):
-        if self.running is None and self.live and all(i in self.pending for i in self.live):
-            self.running = self.rng.choice(sorted(self.live))
+        active = self.live - self.blocked
+        if self.running is None and active and all(i in self.pending for i in active):
+            self.running = self.rng.choice(sorted(active))
+            self.watch = None
             self.cv.notify_all()
+
+    def _runner_sleeps(self):
+        """Is the running thread asleep in the kernel (state S, no CPU time for 2 s)?"""
+        import time
+        i = self.running
+        if i is None or i not in self.tids:
+            return False
+        ident, native = self.tids[i]
+        try:
+            cpu = time.clock_gettime(time.pthread_getcpuclockid(ident))
+            with open("/proc/self/task/%d/stat" % native) as f:
+                state = f.read().rsplit(")", 1)[1].split()[0]
+        except Exception:
+            return False
+        now = time.time()
+        if self.watch is None or self.watch[0] != i or cpu - self.watch[1] > 0.002 or state != "S":
+            self.watch = (i, cpu, now)
+            return False
+        return now - self.watch[2] > 2.0
 
     def yield_point(self, i, kind):
         with self.cv:
+            self.blocked.discard(i)
             self.pending[i] = kind
             if self.running == i:
                 self.running = None
             self._grant()
+            waited = 0.0
             while self.running != i:
                 if self.error:
                     raise SimCrash(self.error)
-                if not self.cv.wait(timeout=90):
-                    self.error = "scheduler timeout (call %d at `%s`)" % (i, kind)
-                    self.cv.notify_all()
-                    raise SimCrash(self.error)
+                if not self.cv.wait(timeout=0.5):
+                    waited += 0.5
+                    if self._runner_sleeps():
+                        self.log.append({"act": ["blocked", self.running], "file": self.snapshot()})
+                        self.blocked.add(self.running)
+                        self.running = None
+                        self._grant()
+                    elif waited > 120:
+                        self.error = "scheduler timeout (call %d at `%s`)" % (i, kind)
+                        self.cv.notify_all()
+                        raise SimCrash(self.error)
             del self.pending[i]
 
     def did(self, act):
@@ -496,6 +534,7 @@ class DynSched:
     def finish(self, i):
         with self.cv:
             self.live.discard(i)
+            self.blocked.discard(i)
             self.pending.pop(i, None)
             if self.running == i:
                 self.running = None
@@ -616,6 +655,7 @@ def run_schedule(ctx, bench, seed, f0, drv):
 
     def body(i):
         tl.i = i
+        sched.register(i)
         try:
             results[i] = G.outcome_base(api.transfer_model, w.dirs[0], "M", w.real_opts(bench.opts, []))
         finally:
@@ -838,6 +878,88 @@ def torn_stream(ctx, bench, rng, n, scan_only=False):
             return
 
 
+CODEGEN_TEXT = "model M\n  parameter Real p = 2;\n  Real x(max = p);\n  Real y;\nequation\n  der(x) = -p*x;\n  y = 3*x + p;\nend M;\n"
+
+
+def codegen_interruption(ctx, drv, idx, k):
+    """save_model(codegen) dies when it is about to build its k-th shared library (k = 0..3), or (k = 4) when it
+    opens the cache file; the files made so far stay.  The next transfer_model(codegen) must return a correct model
+    (not raise from ca.external), and the one after it as well."""
+    import gc
+    from pymoca.backends.casadi import api
+    root = os.path.join(ctx.scratch, "cg%03d" % idx)
+    w = G.CacheWorld(root)
+    opts = {"codegen": True}
+    case = {"stream": "codegen-interrupt", "text": CODEGEN_TEXT, "opts": opts, "k": k}
+    orig_codegen = api._codegen_model
+    try:
+        tick = w.write(0, "M.mo", CODEGEN_TEXT)
+        rok, rm, rmsg = w.reference(opts, [])
+        if not rok:
+            raise HarnessError("codegen bench model does not compile: %s %s" % (rm, rmsg))
+        ref = G.signature(rm, 2, 3)
+        del rm
+        calls = [0]
+
+        def dying_codegen(*a, **kw):
+            if calls[0] >= k:
+                raise SimCrash("died before building library %d" % calls[0])
+            calls[0] += 1
+            return orig_codegen(*a, **kw)
+        api._codegen_model = dying_codegen
+        if k >= 4:
+            def hook(path, mode):
+                raise SimCrash("died at open")
+            install_open(api, hook)
+        try:
+            ok, r, msg = G.outcome_base(api.transfer_model, w.dirs[0], "M", w.real_opts(opts, []))
+        finally:
+            api._codegen_model = orig_codegen
+            uninstall_open(api)
+        ctx.case({"stream": "codegen-interrupt", "k": k}, nontrivial=True, key=["cg", k])
+        ctx.count("codegen-interrupt:k=%d" % k)
+        if ok or r != "SimCrash":
+            ctx.tie_broken("codegen-interrupt:not-reached", "%s %s" % (r, msg))
+            return True
+        left = sorted(fn for fn in os.listdir(w.dirs[0]) if not fn.endswith(".mo"))
+        ctx.count("codegen-interrupt-cache-file-left:%s" % (w.cache_stat() is not None))
+        after = w.cache_stat()
+        now = w.clock + 1
+        if after is not None:
+            w.tick()
+            G.set_mtime(w.cache_path(), w.ns(now))
+        w.model_ops[:] = [["write", 0, "M.mo", tick, w.content_id(CODEGEN_TEXT)],
+                          ["crashed", w.model_opts(opts, []), now, after[2] if after else 0, "beforeOpen" if after is None else after[2]]]
+        kinds = []
+        for step in ("next", "after-next"):
+            ok, m, msg, kind = w.transfer(opts, [])
+            if not ok:
+                ctx.violation("transfer_model(codegen) raised %s on the %s call after save_model died before library %d (files left: %s)" % (
+                    m, step, k, left), case, expected="a correct model", observed="%s: %s" % (m, msg), kind="crash")
+                return False
+            df = G.diff(ref, G.signature(m, 2, 3))
+            del m
+            gc.collect()
+            if df:
+                ctx.violation("transfer_model(codegen) returned a wrong model on the %s call after save_model died before library %d: %s" % (
+                    step, k, df[0]), case, expected="fresh compile", observed=df, kind="crash")
+                return False
+            kinds.append(kind)
+        if drv is not None:
+            ans = drv.ask({"op": "cache.run", "excl": True, "version": 1, "errs": [],
+                           "err_default": {"mro": ["UnpicklingError", "PickleError", "Exception"], "deser": False},
+                           "ops": w.model_ops})
+            mk = [s_["kind"] for s_ in ans["steps"][2:] if "kind" in s_ and not s_.get("crashed")]
+            if [G.coarse(x) for x in mk] != [G.coarse(x) for x in kinds]:
+                ctx.disagreement("codegen-interrupt.decision", case, mk, kinds)
+        return True
+    finally:
+        api._codegen_model = orig_codegen
+        w.close()
+        gc.collect()
+        shutil.rmtree(root, ignore_errors=True)
+
+
 def make_benches(ctx, quick):
     rng = ctx.rng
     specs = []
@@ -887,6 +1009,11 @@ def run(ctx):
         ctx.count("corpus")
         replay(ctx, {"case": c["case"] if "case" in c else c})
     check_convert_table(ctx, drv)
+    # code generation: save_model dies between two of the four library builds / at the cache file
+    cg_ks = [ctx.rng.choice([0, 1]), ctx.rng.choice([2, 3])] if quick else [0, 1, 2, 3, 4]
+    for n_, k in enumerate(cg_ks):
+        if not codegen_interruption(ctx, drv, n_, k):
+            return
     benches = make_benches(ctx, quick)
     if ctx.violations or not benches:
         for b in benches:
@@ -979,6 +1106,9 @@ def replay(ctx, payload):
     drv = ctx.driver("drv_c21")
     if c.get("stream") == "convert":
         check_convert_table(ctx, drv)
+        return
+    if c.get("stream") == "codegen-interrupt":
+        codegen_interruption(ctx, drv, 77, c["k"])
         return
     b = CrashBench(ctx, 900, c["text"], {k: v for k, v in c["opts"].items() if k != "cache"})
     try:
